@@ -148,7 +148,7 @@ theorem dry_inspectLines_congr {env env' : PEnv} (hs : env.stdinMode = env'.stdi
 
 theorem dry_envAgree (env : PEnv) (orc : EvalOracles) (b1 b2 : Bool) (p : Bytes) :
     EnvAgree (msgEnv { env with dryrun := b1 } orc p) (msgEnv { env with dryrun := b2 } orc p) :=
-  ⟨rfl, rfl, rfl, rfl, rfl, rfl, rfl, rfl⟩
+  ⟨rfl, rfl, rfl, rfl, rfl, rfl, rfl, rfl, rfl⟩
 
 /-- The lines of a file are the same with and without `-d`. -/
 theorem dry_lines_eq (env : PEnv) (orc : EvalOracles) (expr : Expr) (D n c : Bytes) (b1 b2 : Bool) :
